@@ -538,12 +538,14 @@ pub fn explore(thorough: bool, deadline: Instant) -> (J, Vec<J>) {
     let t0 = Instant::now();
     let max_n = if thorough { 5 } else { 4 };
     let depth = if thorough { 4 } else { 3 };
+    // longer slices (all three rotate branches of split_off need len >= 5) with follow-up depth 1
+    let wide_n = if thorough { 12 } else { 9 };
     let fa = follow_alphabet();
     let mut heads: Vec<(usize, Container, bool, usize, usize, SplitOp)> = Vec::new();
     for ci in 0..CFGS.len() {
         for cont in [Container::Boxed, Container::Fixed, Container::Vec] {
             for zst in [false, true] {
-                for n in 0..=max_n {
+                for n in 0..=wide_n {
                     for extra in 0..=2usize {
                         if cont == Container::Boxed && extra > 0 {
                             continue;
@@ -614,7 +616,7 @@ pub fn explore(thorough: bool, deadline: Instant) -> (J, Vec<J>) {
                         match r {
                             Ok(true) => {
                                 nontriv.fetch_add(1, Ordering::Relaxed);
-                                if follow.len() < depth {
+                                if follow.len() < if n > max_n { 1 } else { depth } {
                                     for f in &fa {
                                         let mut f2 = follow.clone();
                                         f2.push(*f);
@@ -649,11 +651,12 @@ pub fn explore(thorough: bool, deadline: Instant) -> (J, Vec<J>) {
         .set("traces_validated_against_impl", ev)
         .set("evaluations", ev)
         .set("distinct_nontrivial", nt)
-        .set("rule", "every split operation (split_off with every start/end pair incl. invalid ones, split_at, split_first/last, split_off_first/last, partition masks, split_at_spare, map_in_place) on BumpBox<[T]>, FixedBumpVec and BumpVec of every length 0..N and extra capacity 0..2, sized and zero-sized elements, 4 arena configurations, followed by every sequence (depth bound) of follow-up operations on the parts (push until growth, shrink, truncate, clear, pop, drop, into_boxed_slice, dealloc, merge back, merge in the wrong order, a fresh allocation); after every step each part must hold exactly its expected elements, parts must not share memory, capacities must add up, and at the end every value was dropped exactly once; non-trivial = cases whose split was valid and whose follow-ups were applicable")
+        .set("rule", "every split operation (split_off with every start/end pair incl. invalid ones, split_at, split_first/last, split_off_first/last, partition masks, split_at_spare, map_in_place) on BumpBox<[T]>, FixedBumpVec and BumpVec of every length 0..N (and up to a larger N' with follow-up depth 1) and extra capacity 0..2, sized and zero-sized elements, 4 arena configurations, followed by every sequence (depth bound) of follow-up operations on the parts (push until growth, shrink, truncate, clear, pop, drop, into_boxed_slice, dealloc, merge back, merge in the wrong order, a fresh allocation); after every step each part must hold exactly its expected elements, parts must not share memory, capacities must add up, and at the end every value was dropped exactly once; non-trivial = cases whose split was valid and whose follow-ups were applicable")
         .set("samples", samples)
         .set("exhaustive", !capped.load(Ordering::Relaxed))
         .set("max_len", max_n)
-        .set("followup_depth", depth);
+        .set("followup_depth", depth)
+        .set("max_len_with_followup_depth_1", wide_n);
     let space = J::obj()
         .set("property_id", "C16")
         .set("tier", if thorough { "thorough" } else { "quick" })
